@@ -909,7 +909,7 @@ func (f *Frame) havocFootprint(ct *Contract, ctx *SpecCtx, pre, st *State) {
 		u.havocAll(st)
 		done := map[string]T{}
 		for _, k := range excepted {
-			if u.eng.LockMode && strings.HasPrefix(k.key, "F:sync.RWMutex.") {
+			if u.eng.LockMode && (strings.HasPrefix(k.key, "F:sync.RWMutex.") || k.key == "F:sync.Mutex.sema") {
 				continue // kept as a whole by havocAll
 			}
 			nh, ok := done[k.key]
@@ -971,13 +971,13 @@ func (f *Frame) havocFootprint(ct *Contract, ctx *SpecCtx, pre, st *State) {
 func (u *Unit) havocAll(st *State) {
 	nh := map[string]T{}
 	for k, v := range st.heap {
-		if strings.HasPrefix(k, "IT:") || (u.eng.LockMode && strings.HasPrefix(k, "F:sync.RWMutex.")) {
+		if strings.HasPrefix(k, "IT:") || (u.eng.LockMode && (strings.HasPrefix(k, "F:sync.RWMutex.") || k == "F:sync.Mutex.sema")) {
 			// iterator state; with lock tracking: which mutexes this goroutine holds is not changed by callees
 			nh[k] = v
 		}
 	}
 	if u.eng.LockMode {
-		for _, k := range []string{"F:sync.RWMutex.writerSem", "F:sync.RWMutex.readerSem"} {
+		for _, k := range []string{"F:sync.RWMutex.writerSem", "F:sync.RWMutex.readerSem", "F:sync.Mutex.sema"} {
 			nh[k] = u.heapGet(st, k, arrSort(SInt, SInt))
 		}
 	}
